@@ -33,7 +33,12 @@ DecReason ==
                ELSE IF \E i \in 1..Len(cur.src) : 256 * Abs(Val(E.out[i], cur.cfg) - Val(cur.src[i], cur.cfg)) > b[((i - 1) % c) + 1] THEN "error exceeds the declared-quantisation bound"
                ELSE "ok"
 Reason == CASE E.ev = "enc" -> (IF E.err # "" THEN "encode error" ELSE "ok") [] E.ev = "dec" -> DecReason [] OTHER -> "ok"
-Disc(cfg) == IF cfg.levels = 0 THEN "levels=0" ELSE IF cfg.p = 16 THEN "P=16" ELSE "-"
+\* discriminators of root-caused defect classes.  "planes>25": the stream's own QCD asks for more than 25 magnitude
+\* bit-planes in some sub-band (16-bit input, high quality, several levels); the encoder carries quantised coefficients
+\* as int32 with 6 fractional bits and overflows.
+Disc(cfg) == IF cfg.levels = 0 THEN "levels=0"
+             ELSE IF cur.stream # <<>> /\ MaxPlanes(Qcd(cur.stream), cfg.levels) > 25 THEN "planes>25"
+             ELSE IF cfg.p = 16 THEN "P=16" ELSE "-"
 
 Init == l = 1 /\ cur = [cfg |-> <<>>, src |-> <<>>, stream |-> <<>>] /\ nacc = 0
 Step ==
